@@ -32,6 +32,7 @@ IsRtr(r) == r[2] \in {"rtr:k1", "rtr:k2"}
 AddName(r) == IF IsRtr(r) THEN "RtrAdd" ELSE "RoaAdd"
 DelName(r) == IF IsRtr(r) THEN "RtrDel" ELSE "RoaDel"
 NoAspa == {}
+GenV4 == {"p1", "p2", "p3"}
 ProvOf(x) == IF x[2] = "prov:a2" THEN <<"a2">> ELSE <<"a2", "a3">>
 GenChain == [c \in Sub |-> IF c = "B" THEN "A" ELSE IF c = "C" THEN "B" ELSE "A"]
 \* B under A; C and F (a child that is not hosted here) under B
@@ -123,7 +124,13 @@ GenApiAny ==
               \/ FCall(f) /\ \E L \in (SUBSET ent[f]) \cup {Res}, nl \in BOOLEAN :
                    /\ FCall(f) /\ (nl => L = Offer(f))
                    /\ FIssue(f, x, L)
-                   /\ Api([a |-> "FIssue", c |-> f, x |-> x, lim |-> SetToSeq(L), nolim |-> nl])
+                   /\ Api([a |-> "FIssue", c |-> f, x |-> x, lim |-> SetToSeq(L), nolim |-> nl,
+                           fam |-> "all"])
+              \* a limit on the IPv4 family only: the other families as offered
+              \/ FCall(f) /\ \E LV \in SUBSET (ent[f] \cap GenV4) :
+                   /\ FIssue(f, x, (Offer(f) \ GenV4) \cup LV)
+                   /\ Api([a |-> "FIssue", c |-> f, x |-> x, lim |-> SetToSeq(LV), nolim |-> FALSE,
+                           fam |-> "v4"])
     \/ "restart" \in Ops /\ UNCHANGED <<pubknown, pst, rst, kst, exists, gone, parent, hasp, ent,
                                           cstate, iss, sus, rc, rcv, req, routes, pub, tasks>>
                          /\ Api([a |-> "Restart"])
